@@ -104,13 +104,18 @@ Definition set_analyze (v : option (list Z)) (op : option setop) (prev : option 
 (* the sub-list search of ListUpdateClause._analyze.
    i runs over range(search_space); at i: sub = value[i:i+len(prev)];
    match iff prev[0]==sub[0] and prev[-1]==sub[-1] and prev==sub  (== prev == sub, prev non-empty) *)
+(* idx_cmp(0) and idx_cmp(-1) and self.previous == sub : two endpoint checks, then the full comparison *)
+Definition oz_eq (a b : option Z) : bool := match a, b with Some x, Some y => x =? y | _, _ => false end.
+Definition window_match (pl sub : list Z) : bool :=
+  oz_eq (hd_error pl) (hd_error sub) && oz_eq (hd_error (rev pl)) (hd_error (rev sub)) && zlist_eqb pl sub.
+
 Fixpoint list_search (fuel : nat) (i : nat) (vl pl : list Z) : option (option (list Z) * option (list Z)) :=
   match fuel with
   | O => None
   | S fuel' =>
     let j := (i + length pl)%nat in
     let sub := firstn (length pl) (skipn i vl) in
-    if zlist_eqb pl sub then Some (or_none (firstn i vl), or_none (skipn j vl))
+    if window_match pl sub then Some (or_none (firstn i vl), or_none (skipn j vl))
     else list_search fuel' (S i) vl pl
   end.
 
